@@ -239,6 +239,16 @@ def optRow : Option (Dva α) → Dva α
 
 def rowOf (sol : List (Dva α)) (c : Nat) : Dva α := optRow sol[c]?
 
+/-- the reference options `incrb = "dva"`, `rf_disp_only = False` (`Props/C02i.lean`) -/
+def ColEnv.ref (e : ColEnv α) : ColEnv α := { e with inc := Incrb.all, dispOnly := false }
+
+/-- what `incrb` / `rf_disp_only` are claimed to do to row `r` of the reference column: the excluded
+letters cleared on a rigid-body row, `v`, `a` cleared on a residual-flexibility row iff
+`rf_disp_only`, nothing on any other row -/
+def optionRow (inc : Incrb) (dispOnly : Bool) (rb rf : List Nat) (r : Nat) (x : Dva α) : Dva α :=
+  if rb.contains r then applyIncrb inc x
+  else if rf.contains r && dispOnly then ⟨x.d, 0, 0⟩ else x
+
 /-- eigen data of the coupled path, as delivered by the implementation's `pc` -/
 structure EigData (α : Type) (ks : Nat) where
   s : Nat
